@@ -284,6 +284,11 @@ pub fn run(ctx: &mut Ctx) {
                 if kind == "listeners" && std::net::TcpStream::connect_timeout(&([127, 0, 0, 1], listen_port).into(), Duration::from_millis(300)).is_ok() {
                     return Err("completion() returned while the endpoint was still accepting TCP connections".to_string());
                 }
+                if let ("metrics", Some(a)) = (kind, maddr) {
+                    if std::net::TcpStream::connect_timeout(&a, Duration::from_millis(300)).is_ok() {
+                        return Err("completion() returned while the metrics listener was still accepting connections".to_string());
+                    }
+                }
                 Ok(())
             });
             match verdict {
